@@ -617,3 +617,73 @@ class StrIsCompatible(Contract):
       s = pg.typing.Str()
       return s.noneable() if m.get(n + '_noneable') else s
     return mk('self').is_compatible, [mk('other')], {}
+
+
+# ---------------------------------------------------------------------------
+# extend template (frozen / noneable / type rules) on Number specs
+
+@spec
+def acc_full(frozen, default, noneable, mn, mx, v):
+  """Acceptance with modifiers: a frozen spec accepts only its default."""
+  if frozen:
+    return (v is None and default is None) or (v is not None and default is not None and v == default)
+  if v is None:
+    return noneable
+  return acc_num(mn, mx, v)
+
+
+@register
+class NumberExtendTemplate(_NumberBase):
+  """ValueSpecBase.extend + Number._extend: when extension succeeds, every
+  value the extended spec accepts is accepted by the base (modifiers
+  included), and the base is compatible with it."""
+  target = f'{M}:ValueSpecBase.extend'
+  name = 'Number.extend'
+  variants = ('int',)
+  raises = {TypeError: ()}
+  inline = COMMON_INLINE + (f'{M}:ValueSpecBase.extend',)
+
+  def full_number(self, b, name):
+    o = self.number(b, name)
+    o.fields['_frozen'] = b.bool(name + '_frozen')
+    o.fields['_default'] = b.choice(name + '_default_kind', [MV, b.num(name + '_default', self.variant)])
+    return o
+
+  def inputs(self, b):
+    v = b.opt('v', lambda n: b.num(n, self.variant))
+    return dict(self=self.full_number(b, 'self'), base=self.full_number(b, 'base')), dict(v=v)
+
+  def requires(self, self_, base):
+    # class invariants: ranges well-formed; a frozen spec has a default that it
+    # accepts; a default, when present, lies in range
+    return (wf_num(self_) and wf_num(base)
+            and (not self_._frozen or MV != self_._default)
+            and (not base._frozen or MV != base._default)
+            and (MV == self_._default or acc_num(self_._min_value, self_._max_value, self_._default))
+            and (MV == base._default or acc_num(base._min_value, base._max_value, base._default)))
+
+  def ensures_extended_spec_is_narrower_than_base(self, self_, base, result, v):
+    sd = None if MV == self_._default else self_._default
+    bd = None if MV == base._default else base._default
+    acc_s = acc_full(self_._frozen, sd, self_._is_noneable, self_._min_value, self_._max_value, v)
+    acc_b = acc_full(base._frozen, bd, base._is_noneable, base._min_value, base._max_value, v)
+    return implies(result is self_, implies(acc_s, acc_b))
+
+  def ensures_default_still_accepted(self, self_, base, result):
+    return (result is not self_ or MV == self_._default
+            or acc_num(self_._min_value, self_._max_value, self_._default))
+
+  def replay(self, obligation, m):
+    s = pg.typing.Int(default=5)
+    b_ = pg.typing.Int(max_value=3)
+    try:
+      s.extend(b_)
+    except TypeError:
+      return dict(outcome='not-reproduced', detail='extend refused')
+    try:
+      s.apply(s.default)
+      ok = True
+    except ValueError:
+      ok = False
+    return dict(outcome='not-reproduced' if ok else 'reproduced',
+                detail=f'Int(default=5).extend(Int(max_value=3)) -> {s!r}; its own default accepted: {ok}')
